@@ -125,18 +125,20 @@ func (s *spyServer) Publish(vaaBytes []byte) error {
 	defer s.subsMu.Unlock()
 
 	var v *vaa.VAA
+	var decodeErr error
+	decoded := false
 
 	for id, sub := range s.subs {
 		if len(sub.filters) != 0 {
-			if v == nil {
-				var err error
-				v, err = vaa.Unmarshal(vaaBytes)
-				if err != nil {
-					return err
-				}
+			if !decoded {
+				v, decodeErr = vaa.Unmarshal(vaaBytes)
+				decoded = true
 			}
 
-			if !sub.matches(v) {
+			// Bytes that do not decode have no emitter, so they match no filter. Do not abort the
+			// loop: which of the subscribers without filters had already been served would depend
+			// on the iteration order of the map.
+			if decodeErr != nil || !sub.matches(v) {
 				continue
 			}
 		}
@@ -152,7 +154,7 @@ func (s *spyServer) Publish(vaaBytes []byte) error {
 		}
 	}
 
-	return nil
+	return decodeErr
 }
 
 func (s *spyServer) SubscribeSignedVAA(req *spyv1.SubscribeSignedVAARequest, resp spyv1.SpyRPCService_SubscribeSignedVAAServer) error {
